@@ -107,7 +107,7 @@ def untainted_view(L, o, due_limit=None):
     keep = [r for (name, ks, _), r in zip(rk, reps) if not any((cmd_type(name), k) in tainted for k in ks)]
     ents = []
     for e in o["dump"].split(" || "):
-        if not e or e.startswith("cnt("):
+        if not e or e.startswith("cnt(") or e.startswith("pfr") or "{" not in e:
             continue
         key, body = e.split("{", 1)
         toks = [t for t in body.rstrip("}").split(" | ") if (VIEW_TYPE.get(t.split("=", 1)[0], "k"), key) not in tainted]
